@@ -47,6 +47,19 @@ def gradParts? (A D : DMat n n α) (r dμ : Fin n → α) : Option (α × α × 
     let wl : Fin n → α := r ᵥ* X.toMatrix
     (wl ⬝ᵥ (D.toMatrix *ᵥ w), (X.toMatrix * D.toMatrix).trace, dμ ⬝ᵥ w)
 
+/-- Exact gradient of the rational part of the leave-one-out objective `Σᵢ (½ log aᵢ − ½ bᵢ²/aᵢ)`
+(`a = diag A⁻¹`, `b = A⁻¹ r`; equal to `Σᵢ (−½ log σ²ᵢ − ½ (yᵢ−μᵢ)²/σ²ᵢ)`) along a direction in which the covariance moves
+with derivative `D` and the mean with derivative `dμ`:
+`Σᵢ ½ a'ᵢ/aᵢ − bᵢ b'ᵢ/aᵢ + ½ bᵢ² a'ᵢ/aᵢ²` with `a' = −diag(A⁻¹DA⁻¹)`, `b' = −A⁻¹DA⁻¹r − A⁻¹dμ`. -/
+def looGrad? (half : α) (A D : DMat n n α) (r dμ : Fin n → α) : Option α :=
+  (A.inv?).map fun X =>
+    let W := ((X.mul D).mul X).toMatrix
+    let b : Fin n → α := X.toMatrix *ᵥ r
+    let wr : Fin n → α := W *ᵥ r
+    let xd : Fin n → α := X.toMatrix *ᵥ dμ
+    ∑ i, (half * (-(W i i)) / X.toMatrix i i - b i * (-(wr i) - xd i) / X.toMatrix i i
+      + half * b i ^ 2 * (-(W i i)) / X.toMatrix i i ^ 2)
+
 end exact
 
 /-- gradient of the Gaussian log density from its three pieces: `½ rᵀXDXr − ½ tr(XD) + dμᵀXr`. -/
